@@ -135,6 +135,10 @@ pub struct Hist {
     pub w_rr: usize,
     pub w_eq: usize,
     pub w_persist: usize,
+    /// oracle commands: merge laws (ML), merge-vs-delivery (MU), absorption (AB)
+    pub w_laws: usize,
+    pub w_mu: usize,
+    pub w_absorb: usize,
     /// deliver everything everywhere at the end (in a discipline-respecting order) before `E`
     pub flush: bool,
     /// end the case with the convergence oracle `E` (only where equal knowledge must give equal state)
@@ -146,7 +150,7 @@ impl Hist {
         Hist {
             ty, min_rep: 2, max_rep: 3, min_steps: 4, max_steps: 16, disc,
             w_gen: 30, w_deliver: 40, w_dup: 6, w_merge: 0, w_snap: 0, w_validate: 0, w_vmerge: 0, w_rr: 0, w_eq: 0,
-            w_persist: 0, flush: false, end_oracle: true,
+            w_persist: 0, w_laws: 0, w_mu: 0, w_absorb: 0, flush: false, end_oracle: true,
         }
     }
 }
@@ -174,7 +178,7 @@ pub fn history(out: &mut String, rng: &mut Rng, h: &Hist, gen_args: &mut dyn FnM
             Disc::Fifo => ops[j].deps.iter().filter(|d| ops[**d].author == ops[j].author).all(|d| k(*d)),
         }
     };
-    let total = h.w_gen + h.w_deliver + h.w_dup + h.w_merge + h.w_snap + h.w_validate + h.w_vmerge + h.w_rr + h.w_eq + h.w_persist;
+    let total = h.w_gen + h.w_deliver + h.w_dup + h.w_merge + h.w_snap + h.w_validate + h.w_vmerge + h.w_rr + h.w_eq + h.w_persist + h.w_laws + h.w_mu + h.w_absorb;
     for _ in 0..steps {
         let mut x = rng.below(total);
         let r = rng.below(n);
@@ -275,6 +279,21 @@ pub fn history(out: &mut String, rng: &mut Rng, h: &Hist, gen_args: &mut dyn FnM
             writeln!(out, "EQ {} {}", r, rng.below(n)).unwrap();
             continue;
         }
+        x -= h.w_eq;
+        if x < h.w_laws {
+            writeln!(out, "ML {} {} {}", r, rng.below(n), rng.below(n)).unwrap();
+            continue;
+        }
+        x -= h.w_laws;
+        if x < h.w_mu {
+            writeln!(out, "MU {} {}", r, rng.below(n)).unwrap();
+            continue;
+        }
+        x -= h.w_mu;
+        if x < h.w_absorb {
+            writeln!(out, "AB {}", r).unwrap();
+            continue;
+        }
         writeln!(out, "P {}", r).unwrap();
     }
     if h.flush {
@@ -295,6 +314,108 @@ pub fn history(out: &mut String, rng: &mut Rng, h: &Hist, gen_args: &mut dyn FnM
         writeln!(out, "E").unwrap();
     }
 }
+
+/// MVReg with hand-made `Put`s: clocks from the future, equal clocks with different values, dominated and
+/// empty clocks, stored zeros; mixed with API writes (also by a foreign actor: `GA`), merges, snapshots, `==`,
+/// persistence.  Even cases use type `mvreg` (the Lean driver prints the specification whenever the ops known to
+/// the replica happen to be well-formed), odd cases `mvreg_raw` (no specification) and add `reset_remove`.
+pub fn mvreg_raw(out: &mut String, rng: &mut Rng, cases: usize) {
+    for case in 0..cases {
+        let with_rr = case % 2 == 1;
+        let n = 2 + rng.below(3);
+        writeln!(out, "T {} {}", if with_rr { "mvreg_raw" } else { "mvreg" }, n).unwrap();
+        let nops = 3 + rng.below(6);
+        let mut clocks: Vec<String> = vec![];
+        for i in 0..nops {
+            let c = if !clocks.is_empty() && rng.chance(1, 5) {
+                clocks[rng.below(clocks.len())].clone() // equal clock, (probably) different value
+            } else if rng.chance(1, 12) {
+                "{}".to_string()
+            } else {
+                let mut v = vec![];
+                let zeros = rng.chance(1, 10);
+                for a in 0..4u64 {
+                    if rng.chance(1, 2) {
+                        let k = rng.below(4) as u64;
+                        if k > 0 || zeros {
+                            v.push((a, k));
+                        }
+                    }
+                }
+                clock_str(&v)
+            };
+            clocks.push(c.clone());
+            writeln!(out, "O p{} put {} {}", i, c, 5 + 2 * rng.below(3)).unwrap();
+        }
+        let steps = 6 + rng.below(22);
+        let mut nsnap = 0;
+        let mut ngen = 0;
+        if with_rr && n >= 3 && rng.chance(1, 4) {
+            // known edge: `reset_remove` makes two entries identical, after which `==` panics (assert_eq!(num_found, 1))
+            let v = 5 + 2 * rng.below(2);
+            writeln!(out, "G 2 g0 write {}", 5 + 2 * rng.below(2)).unwrap();
+            writeln!(out, "D 0 g0").unwrap();
+            writeln!(out, "D 1 g0").unwrap();
+            writeln!(out, "G 0 g1 write {v}").unwrap();
+            writeln!(out, "G 1 g2 write {v}").unwrap();
+            writeln!(out, "D 0 g2").unwrap();
+            writeln!(out, "RR 0 {{0:1,1:1}}").unwrap();
+            writeln!(out, "EQ 0 0").unwrap();
+            writeln!(out, "EQ 0 1").unwrap();
+            writeln!(out, "EQ 1 0").unwrap();
+            writeln!(out, "P 0").unwrap();
+            ngen = 3;
+        }
+        for _ in 0..steps {
+            let r = rng.below(n);
+            match rng.below(if with_rr { 21 } else { 19 }) {
+                0..=7 => writeln!(out, "D {} p{}", r, rng.below(nops)).unwrap(),
+                8 | 9 => {
+                    writeln!(out, "G {} g{} write {}", r, ngen, 5 + 2 * rng.below(2)).unwrap();
+                    ngen += 1;
+                }
+                10 => {
+                    if ngen > 0 {
+                        writeln!(out, "D {} g{}", r, rng.below(ngen)).unwrap();
+                    }
+                }
+                11 => {
+                    // same actor writing at another replica: the documented misuse (equal clocks, different values)
+                    writeln!(out, "GA {} {} g{} write {}", r, rng.below(n), ngen, 5 + 2 * rng.below(2)).unwrap();
+                    ngen += 1;
+                }
+                12 | 13 | 14 => writeln!(out, "M {} {}", r, rng.below(n)).unwrap(),
+                15 => {
+                    if nsnap == 0 || rng.chance(1, 2) {
+                        writeln!(out, "S {} s{}", r, nsnap).unwrap();
+                        nsnap += 1;
+                    } else {
+                        writeln!(out, "MS {} s{}", r, rng.below(nsnap)).unwrap();
+                    }
+                }
+                16 => writeln!(out, "EQ {} {}", r, rng.below(n)).unwrap(),
+                17 => writeln!(out, "P {}", r).unwrap(),
+                18 => {
+                    writeln!(out, "V {} p{}", r, rng.below(nops)).unwrap();
+                    writeln!(out, "VM {} {}", r, rng.below(n)).unwrap();
+                    writeln!(out, "PO p{}", rng.below(nops)).unwrap();
+                }
+                _ => {
+                    let mut v = vec![];
+                    for a in 0..4u64 {
+                        if rng.chance(1, 2) {
+                            v.push((a, 1 + rng.below(3) as u64));
+                        }
+                    }
+                    writeln!(out, "RR {} {}", r, clock_str(&v)).unwrap();
+                    writeln!(out, "EQ {} {}", r, r).unwrap();
+                }
+            }
+        }
+    }
+}
+
+
 
 fn hist_cases(out: &mut String, rng: &mut Rng, h: &Hist, cases: usize, gen_args: &mut dyn FnMut(&mut Rng, usize) -> String) {
     for i in 0..cases {
@@ -362,6 +483,9 @@ pub fn main(args: &[String]) {
                 h.w_validate = 3;
                 h.w_vmerge = 2;
                 h.w_eq = 3;
+                h.w_laws = 4;
+                h.w_mu = 4;
+                h.w_absorb = 3;
                 h
             };
             hist_cases(&mut out, &mut rng, &mk("gcounter"), per, &mut |r, _| {
@@ -400,6 +524,13 @@ pub fn main(args: &[String]) {
             h.w_dup = 6;
             h.w_eq = 2;
             h.end_oracle = disc != Disc::Any;
+            if disc != Disc::Any {
+                h.w_absorb = 3;
+                if profile != "orswot_fifo_ops" {
+                    h.w_laws = 4;
+                    h.w_mu = 4;
+                }
+            }
             hist_cases(&mut out, &mut rng, &h, cases, &mut orswot_args);
         }
         "lww_conflict" => {
@@ -427,6 +558,29 @@ pub fn main(args: &[String]) {
                 }
             }
         }
+        "mvreg_hist" => {
+            // C06: writes derived from reads at any replica (actor = replica, own write applied at once), ANY delivery
+            // order, duplicates, merges, snapshots merged later, values from a 2-element domain (equal concurrent values)
+            let mk = |flush: bool| {
+                let mut h = Hist::new("mvreg", Disc::Any);
+                h.max_rep = 4;
+                h.min_steps = 6;
+                h.max_steps = 26;
+                h.w_merge = 12;
+                h.w_snap = 8;
+                h.w_dup = 8;
+                h.w_validate = 1;
+                h.w_vmerge = 1;
+                h.w_eq = 5;
+                h.w_persist = 8;
+                h.flush = flush;
+                h
+            };
+            let a = cases * 2 / 3;
+            hist_cases(&mut out, &mut rng, &mk(true), a, &mut |r, _| format!("write {}", 5 + 2 * r.below(2)));
+            hist_cases(&mut out, &mut rng, &mk(false), cases - a, &mut |r, _| format!("write {}", 5 + 2 * r.below(2)));
+        }
+        "mvreg_raw" => mvreg_raw(&mut out, &mut rng, cases),
         _ => {
             eprintln!("unknown profile {profile}");
             std::process::exit(2);
